@@ -1851,7 +1851,28 @@ def remove_redundant_reshape_pairs_ir(graph: ir.Graph) -> None:
             safe_chain = True
 
             t1_out = _node_output(T1)
-            if t1_out is not None:
+            if _value_is_observed(graph, nodes, t1_out):
+                safe_chain = False
+            prev_val = t1_out
+            for node in allowed_fwd:
+                if not safe_chain:
+                    break
+                # Multi-input members (Max/Min/Clip) commute with the reshape
+                # only when every side operand is a scalar constant;
+                # CastLike's second input only supplies a dtype.
+                for pos, iv in enumerate(_node_inputs(node)):
+                    if iv is None or iv is prev_val:
+                        continue
+                    if node.op_type == "CastLike" and pos == 1:
+                        continue
+                    if not _is_scalar_const_value(iv):
+                        safe_chain = False
+                        break
+                prev_val = _node_output(node)
+                if _value_is_observed(graph, nodes, prev_val):
+                    safe_chain = False
+
+            if safe_chain and t1_out is not None:
                 for consumer in _consumer_nodes(nodes, t1_out):
                     if consumer in chain_nodes or consumer is T2:
                         continue
